@@ -247,13 +247,13 @@ func (e c35Ev) class() string {
 		case e.delta == 0:
 			s += "-current"
 		default:
-			s += fmt.Sprintf("+%d", e.delta)
+			s += "-newer"
 		}
 		if e.otherBase {
 			s += "-other-base"
 		}
 		if e.faultAt > 0 {
-			s += fmt.Sprintf(":%s@%d", c35FaultName[e.fault], e.faultAt)
+			s += ":" + c35FaultName[e.fault]
 		}
 		return s
 	case c35Load:
@@ -553,7 +553,7 @@ func TestC35(t *testing.T) {
 		t.Fatalf("HARNESS-ERROR building the TRC world: %v", err)
 	}
 	menu := c35Menu()
-	depth := mc.Pick(4, 6)
+	depth := mc.Pick(5, 6)
 	r.Rule = fmt.Sprintf("breadth-first search over event histories up to length %d from the empty store; %d events: NotifyTRC with serial "+
 		"latest-1/latest/+1/+2/+3 (same base; other base with 0/+1/+2), for +k every position 1..k of a faulty fetch x {fetch error, bad vote "+
 		"signature, properly signed non-successor, TRC with another ID}; LoadTRCs from 3 directories (S1 | S2 + future S4 | other-base B3-S3 + future S5); "+
@@ -574,7 +574,7 @@ func TestC35(t *testing.T) {
 			return menu[:len(menu)-1]
 		},
 		MaxDepth:   depth,
-		CheckMerge: true,
+		CheckMerge: mc.Thorough(),
 		Workers:    8,
 		Stop:       r.OutOfBudget,
 	})
